@@ -381,6 +381,176 @@ theorem otherUnique_absent (cfg : Cfg) (a b : Val) (r : Res) (hw : wf a = true) 
   obtain ⟨q, s, hp, ha⟩ := (compareTop_absent cfg a b r hw hw' h).ou e he
   exact ⟨q, s, by simpa using hp, ha⟩
 
+/-! ### keyed mode: after the walk no key is left over on both sides -/
+
+/-- the remaining lists after the loop of `n0list.compare` (keys only) -/
+def keyedRem : List Str → List KE → List KE → List KE × List KE
+  | [], sr, orr => (sr, orr)
+  | k :: ks, sr, orr =>
+    match findKey k orr with
+    | none => keyedRem ks sr orr
+    | some _ => keyedRem ks (eraseKey k sr) (eraseKey k orr)
+
+theorem keysOf_length (cfg : Cfg) (p : Path) : ∀ (xs : List Val) (ks : List Str),
+    keysOf cfg p xs = .ok ks → ks.length = xs.length
+  | [], ks, h => by simp only [keysOf] at h; cases h; rfl
+  | x :: xs, ks, h => by
+    simp only [keysOf] at h
+    cases hk : keyOf cfg p x with
+    | error e => rw [hk] at h; cases h
+    | ok k =>
+      rw [hk] at h
+      simp only at h
+      cases hr : keysOf cfg p xs with
+      | error e => rw [hr] at h; cases h
+      | ok ks' =>
+        rw [hr] at h; cases h
+        simp [keysOf_length cfg p xs ks' hr]
+
+theorem mkEntries_keys : ∀ (ks : List Str) (xs : List Val) (i : Nat), xs.length = ks.length →
+    (mkEntries i ks xs).map (·.1) = ks
+  | [], [], _, _ => rfl
+  | [], _ :: _, _, h => by simp at h
+  | _ :: _, [], _, h => by simp at h
+  | k :: ks, x :: xs, i, h => by
+    simp only [mkEntries, List.map_cons]
+    rw [mkEntries_keys ks xs (i + 1) (by simpa using h)]
+
+theorem eraseKey_keys (k : Str) : ∀ l : List KE, (eraseKey k l).map (·.1) = (l.map (·.1)).erase k
+  | [] => rfl
+  | (k', i, v) :: rest => by
+    simp only [eraseKey, List.map_cons]
+    by_cases h : k = k'
+    · subst h; simp
+    · have h' : ¬ k' = k := fun e => h e.symm
+      simp only [h, if_false, List.map_cons, eraseKey_keys k rest]
+      rw [List.erase_cons_tail (by simpa using h')]
+
+theorem findKey_isSome_iff (k : Str) : ∀ l : List KE, (findKey k l).isSome = true ↔ k ∈ l.map (·.1)
+  | [] => by simp [findKey]
+  | (k', i, v) :: rest => by
+    simp only [findKey, List.map_cons, List.mem_cons]
+    by_cases h : k = k'
+    · simp [h]
+    · simp [h, findKey_isSome_iff k rest]
+
+/-- the keyed walk decomposes: nested results first, then the leftovers given by `keyedRem` -/
+theorem keyedWalk_decomp (cfg : Cfg) (p : Path) (sa oa : Val) : ∀ (xs : List Val) (ks : List Str) (i : Nat)
+    (sr orr : List KE) (r : Res), xs.length = ks.length →
+    keyedWalk cfg p sa oa i xs ks sr orr = .ok r →
+    (∃ l, r.selfUnique = l ++ (keyedTail p (keyedRem ks sr orr).1 (keyedRem ks sr orr).2).selfUnique) ∧
+    (∃ l, r.otherUnique = l ++ (keyedTail p (keyedRem ks sr orr).1 (keyedRem ks sr orr).2).otherUnique)
+  | [], [], i, sr, orr, r, _, h => by
+    simp only [keyedWalk] at h
+    cases h
+    exact ⟨⟨[], rfl⟩, ⟨[], rfl⟩⟩
+  | [], _ :: _, _, _, _, _, hl, _ => by simp at hl
+  | _ :: _, [], _, _, _, _, hl, _ => by simp at hl
+  | x :: xs, k :: ks, i, sr, orr, r, hl, h => by
+    have hl' : xs.length = ks.length := by simpa using hl
+    simp only [keyedWalk] at h
+    simp only [keyedRem]
+    cases hf : findKey k orr with
+    | none =>
+      rw [hf] at h
+      exact keyedWalk_decomp cfg p sa oa xs ks (i + 1) sr orr r hl' h
+    | some jy =>
+      obtain ⟨j, y⟩ := jy
+      rw [hf] at h
+      simp only at h ⊢
+      cases hcl : classifyItem cfg p (p ++ [if i = j then PSeg.idx i else PSeg.idx2 i j]) (p ++ [.idx i]) sa oa x y with
+      | emit r0 s =>
+        rw [hcl] at h
+        simp only at h
+        cases hr : keyedWalk cfg p sa oa (i + 1) xs ks (eraseKey k sr) (eraseKey k orr) with
+        | error e => rw [hr] at h; cases h
+        | ok r' =>
+          rw [hr] at h; cases h
+          obtain ⟨⟨l1, h1⟩, ⟨l2, h2⟩⟩ := keyedWalk_decomp cfg p sa oa xs ks (i + 1) _ _ r' hl' hr
+          exact ⟨⟨r0.selfUnique ++ l1, by simp only [append_selfUnique, h1, List.append_assoc]⟩,
+                 ⟨r0.otherUnique ++ l2, by simp only [append_otherUnique, h2, List.append_assoc]⟩⟩
+      | descend =>
+        rw [hcl] at h
+        simp only at h
+        cases hs : sub cfg .item (p ++ [if i = j then PSeg.idx i else PSeg.idx2 i j]) x y with
+        | error e => rw [hs] at h; cases h
+        | ok r0 =>
+          rw [hs] at h
+          simp only at h
+          cases hr : keyedWalk cfg p sa oa (i + 1) xs ks (eraseKey k sr) (eraseKey k orr) with
+          | error e => rw [hr] at h; cases h
+          | ok r' =>
+            rw [hr] at h; cases h
+            obtain ⟨⟨l1, h1⟩, ⟨l2, h2⟩⟩ := keyedWalk_decomp cfg p sa oa xs ks (i + 1) _ _ r' hl' hr
+            exact ⟨⟨r0.selfUnique ++ l1, by simp only [append_selfUnique, h1, List.append_assoc]⟩,
+                   ⟨r0.otherUnique ++ l2, by simp only [append_otherUnique, h2, List.append_assoc]⟩⟩
+
+theorem keyedRem_sub : ∀ (ks : List Str) (sr orr : List KE),
+    (∀ e ∈ (keyedRem ks sr orr).1, e ∈ sr) ∧ (∀ e ∈ (keyedRem ks sr orr).2, e ∈ orr)
+  | [], _, _ => ⟨fun _ h => h, fun _ h => h⟩
+  | k :: ks, sr, orr => by
+    simp only [keyedRem]
+    cases hf : findKey k orr with
+    | none => exact keyedRem_sub ks sr orr
+    | some jy =>
+      have := keyedRem_sub ks (eraseKey k sr) (eraseKey k orr)
+      exact ⟨fun e he => eraseKey_sub sr k e (this.1 e he), fun e he => eraseKey_sub orr k e (this.2 e he)⟩
+
+/-- invariant: a key that still occurs on the right occurs as often among the remaining left entries as among the
+keys still to be visited -/
+theorem keyedRem_disjoint : ∀ (ks : List Str) (sr orr : List KE),
+    (∀ κ, κ ∈ orr.map (·.1) → (sr.map (·.1)).count κ = ks.count κ) →
+    ∀ e ∈ (keyedRem ks sr orr).1, ∀ e' ∈ (keyedRem ks sr orr).2, e.1 ≠ e'.1
+  | [], sr, orr, hinv => by
+    intro e he e' he' heq
+    have h1 : e'.1 ∈ orr.map (·.1) := List.mem_map_of_mem he'
+    have h2 := hinv e'.1 h1
+    have h3 : e'.1 ∈ sr.map (·.1) := heq ▸ List.mem_map_of_mem he
+    simp only [List.count_nil] at h2
+    exact absurd h3 (List.count_eq_zero.1 h2)
+  | k :: ks, sr, orr, hinv => by
+    simp only [keyedRem]
+    cases hf : findKey k orr with
+    | none =>
+      refine keyedRem_disjoint ks sr orr ?_
+      intro κ hκ
+      have hne : k ≠ κ := by
+        intro e; subst e
+        have := (findKey_isSome_iff k orr).2 hκ
+        rw [hf] at this; cases this
+      rw [hinv κ hκ, List.count_cons_of_ne hne]
+    | some jy =>
+      refine keyedRem_disjoint ks (eraseKey k sr) (eraseKey k orr) ?_
+      intro κ hκ
+      have hκ' : κ ∈ orr.map (·.1) := by
+        rw [eraseKey_keys] at hκ
+        exact List.mem_of_mem_erase hκ
+      have := hinv κ hκ'
+      rw [eraseKey_keys, List.count_erase]
+      by_cases hk : k = κ
+      · subst hk
+        simp only [beq_self_eq_true, if_true, this, List.count_cons_self]
+        omega
+      · have : (k == κ) = false := by simpa using hk
+        simp only [this, Bool.false_eq_true, if_false, Nat.sub_zero]
+        rw [hinv κ hκ', List.count_cons_of_ne hk]
+
+/-- in the result of one keyed list walk the entries left over at this level (`prefix[i]`) never share a key:
+an item reported as unique on one side has no unmatched partner with the same key on the other side -/
+theorem keyedWalk_tail_disjoint (cfg : Cfg) (p : Path) (sa oa : Val) (xs ys : List Val) (ks ko : List Str) (r : Res)
+    (hlen : ks.length = xs.length)
+    (h : keyedWalk cfg p sa oa 0 xs ks (mkEntries 0 ks xs) (mkEntries 0 ko ys) = .ok r) :
+    ∃ (sr' orr' : List KE) (lsu lou : List UE),
+      r.selfUnique = lsu ++ sr'.map (fun e => ⟨p ++ [.idx e.2.1], e.2.2⟩) ∧
+      r.otherUnique = lou ++ orr'.map (fun e => ⟨p ++ [.idx e.2.1], e.2.2⟩) ∧
+      (∀ e ∈ sr', e ∈ mkEntries 0 ks xs) ∧ (∀ e ∈ orr', e ∈ mkEntries 0 ko ys) ∧
+      (∀ e ∈ sr', ∀ e' ∈ orr', e.1 ≠ e'.1) := by
+  obtain ⟨⟨l1, h1⟩, ⟨l2, h2⟩⟩ := keyedWalk_decomp cfg p sa oa xs ks 0 _ _ r hlen.symm h
+  have hs := keyedRem_sub ks (mkEntries 0 ks xs) (mkEntries 0 ko ys)
+  refine ⟨_, _, l1, l2, h1, h2, hs.1, hs.2, keyedRem_disjoint ks _ _ ?_⟩
+  intro κ _
+  rw [mkEntries_keys ks xs 0 hlen.symm]
+
 set_option linter.unusedSimpArgs false
 
 /-! ## (B) swap symmetry -/
@@ -1004,5 +1174,54 @@ theorem swap_direct_stmt_false : ¬ swap_direct_stmt := by
     (by decide) (by decide) swap_transform_cex.1
   rw [swap_transform_cex.2] at hr'
   cases hr'
+
+/-! ### the keyed entry point: statement only -/
+
+mutual
+/-- every list (at every depth) has pairwise different item keys -/
+def keysOK (cfg : Cfg) : Val → Bool
+  | .list _ xs => keysOKL cfg xs &&
+      (match keysOf cfg [] xs with
+       | .ok ks => decide ks.Nodup
+       | .error _ => false)
+  | .dict _ kvs => keysOKK cfg kvs
+  | _ => true
+def keysOKL (cfg : Cfg) : List Val → Bool
+  | [] => true
+  | x :: xs => keysOK cfg x && keysOKL cfg xs
+def keysOKK (cfg : Cfg) : List (Str × Val) → Bool
+  | [] => true
+  | (_, x) :: xs => keysOK cfg x && keysOKK cfg xs
+end
+
+/-- swap symmetry of the KEYED entry point, NOT proved here.  Honest hypotheses: no transform; no type-clash
+entries (`fl.types = false`: a clash inside a keyed list carries the left index only, see
+`diffTypes_right_keyed_cex`); the path filters do not distinguish `[i]<>[j]` from `[j]<>[i]`
+(see `swap_keyed_exclude_cex`); unique dictionary keys; pairwise different item keys in every list. -/
+def swap_keyed_stmt : Prop :=
+  ∀ (cfg : Cfg) (a b : Val) (r : Res), cfg.tr = [] → cfg.direct = false → cfg.fl.types = false →
+    (∀ p, excluded cfg (mirrorPath p) = excluded cfg p) → (∀ p, onlyOk cfg (mirrorPath p) = onlyOk cfg p) →
+    wf a = true → wf b = true → keysOK cfg a = true → keysOK cfg b = true →
+    compareTop cfg a b = .ok r →
+    ∃ r', compareTop cfg b a = .ok r' ∧
+      (r'.notEqual.Perm r.mirror.notEqual ∧ r'.selfUnique.Perm r.mirror.selfUnique ∧
+       r'.otherUnique.Perm r.mirror.otherUnique ∧ r'.diffTypes.Perm r.mirror.diffTypes ∧ r'.diffs = r.diffs)
+
+/-- an `exclude_xpaths` pattern that names a paired index `[0]<>[1]` is not mirror-invariant: the record `id=a`
+sits at index 0 on the left and 1 on the right, its field `v` differs; `a.compare(b)` excludes `[0]<>[1]/v`
+(one line: the unmatched `id=z`), `b.compare(a)` sees `[1]<>[0]/v` and reports it (two lines) -/
+def swapKeyedCexCfg : Cfg :=
+  ⟨Flags.init, false, .many [['i', 'd']], .many [], .many [['[', '0', ']', '<', '>', '[', '1', ']', '/', 'v']], []⟩
+
+theorem swap_keyed_exclude_cex :
+    (compareTop swapKeyedCexCfg
+        (.list .n0 [.dict .n0 [(['i', 'd'], .str ['a']), (['v'], .int 1)]])
+        (.list .n0 [.dict .n0 [(['i', 'd'], .str ['z']), (['v'], .int 0)],
+                    .dict .n0 [(['i', 'd'], .str ['a']), (['v'], .int 2)]])).map (·.diffs) = .ok 1 ∧
+    (compareTop swapKeyedCexCfg
+        (.list .n0 [.dict .n0 [(['i', 'd'], .str ['z']), (['v'], .int 0)],
+                    .dict .n0 [(['i', 'd'], .str ['a']), (['v'], .int 2)]])
+        (.list .n0 [.dict .n0 [(['i', 'd'], .str ['a']), (['v'], .int 1)]])).map (·.diffs) = .ok 2 := by
+  decide
 
 end N0.Compare
